@@ -385,7 +385,8 @@ package fsm
 //@   ensures [C01.del.values] err == nil ==> forall k Bytes :: ctx.batch.vP[k] ==> ctx.batch.vV[k] == old(ctx.batch.vV[k])
 //@   ensures [C01.del.count1] err == nil && isNilSlice(del.RangeEnd) && (del.Count || del.PrevKv) ==> resp != nil && resp.Deleted == (old(ctx.batch.vP[encK(1, bytesOf(del.Key))]) ? 1 : 0)
 //@   ensures [C01.del.countN] err == nil && !isNilSlice(del.RangeEnd) && del.Count && !del.PrevKv ==> resp != nil && resp.Deleted == cnt(old(ctx.batch.vP), encK(1, bytesOf(del.Key)), (isWildcard(del.RangeEnd) ? Wb() : encK(1, bytesOf(del.RangeEnd))))
-//@   ensures [C01.del.prevN]  err == nil && !isNilSlice(del.RangeEnd) && del.PrevKv ==> resp != nil && resp.Deleted == cnt(old(ctx.batch.vP), encK(1, bytesOf(del.Key)), (isWildcard(del.RangeEnd) ? Wb() : encK(1, bytesOf(del.RangeEnd)))) && len(resp.PrevKvs) == resp.Deleted
+//@   ensures [C01.del.prevN]  err == nil && !isNilSlice(del.RangeEnd) && del.PrevKv ==> resp != nil && resp.Deleted == cnt(old(ctx.batch.vP), encK(1, bytesOf(del.Key)), (isWildcard(del.RangeEnd) ? Wb() : encK(1, bytesOf(del.RangeEnd))))
+//@   ensures [C01.del.prevN.pairs] err == nil && !isNilSlice(del.RangeEnd) && del.PrevKv ==> resp != nil && len(resp.PrevKvs) == resp.Deleted      // previous pairs are returned whenever asked for, also together with the count flag
 //@   ensures [C01.del.nocount] err == nil && !(del.Count || del.PrevKv) ==> resp != nil && resp.Deleted == 0 && len(resp.PrevKvs) == 0
 //@   ensures [C01.del.book+C12]   err == nil ==> bookSame(ctx.batch.vP, ctx.batch.vV, old(ctx.batch.vP), old(ctx.batch.vV))
 //@   ensures ctx.index == old(ctx.index) && ctx.leaderIndex == old(ctx.leaderIndex) && ctx.db == old(ctx.db)
